@@ -1,7 +1,8 @@
 (* Props/C15.v - property C15 (each command reports only its own rules; rules fire only on their languages).
    Only statements closed by `exact <lemma>` and their Print Assumptions. *)
 From TL Require Import Lib.Base Model.DispatchTypes Gen.DispatchGen Model.Dispatch
-     Proofs.DispatchStr Proofs.DispatchMain.
+     Proofs.DispatchStr Proofs.DispatchMain Proofs.DispatchFiles.
+From Coq Require Import Permutation.
 
 (* 1. Filter exactness, over the registry found in the source: for every command (and --rule variant)
       and every rule id any linter package can emit, the command's predicate accepts the id iff the id
@@ -39,6 +40,35 @@ Print Assumptions C15_detect_unmapped.
 Theorem C15_detect_is_spec : forall q f, spec_class f = lang_class (detect q f).
 Proof. exact detect_spec_faithful. Qed.
 Print Assumptions C15_detect_is_spec.
+
+(* 2b. Locality of language detection.  In one invocation on several paths every path is analysed as the language of its
+       OWN name and first line, whatever was linted before or after it and - for a name that is a symbolic link - whatever
+       the name of the file it points to (Gen.detect_arg_resolved = false, Gen.detect_stateless: translator item
+       detect_locality, re-read from language_detector.py and Orchestrator.lint_file on every run). *)
+Theorem C15_language_is_local : forall q pre e post,
+  nth_error (run_langs q (pre ++ e :: post)) (List.length pre) = Some (detect q (e_file e)).
+Proof. exact language_is_local. Qed.
+Print Assumptions C15_language_is_local.
+
+Theorem C15_link_target_irrelevant : forall q cmd c f tg1 tg2 t,
+  entry_lang q (mk_entry f tg1 t) = entry_lang q (mk_entry f tg2 t)
+  /\ run_entry q cmd c (mk_entry f tg1 t) = run_entry q cmd c (mk_entry f tg2 t).
+Proof. exact link_target_irrelevant. Qed.
+Print Assumptions C15_link_target_irrelevant.
+
+(* a run over several paths prints exactly the per-file specification; the order of the paths only permutes the findings *)
+Theorem C15_run_files_exact : forall q cmd c es,
+  q_name_exemption_ext_case q = false ->
+  is_command cmd = true -> cfg_clean c = true ->
+  forallb (fun e => atab_good (e_tab e)) es = true ->
+  run_files q cmd c es = Ok (spec_files cmd es).
+Proof. exact run_files_exact. Qed.
+Print Assumptions C15_run_files_exact.
+
+Theorem C15_run_files_order_irrelevant : forall q cmd c es es' vs vs',
+  Permutation es es' -> run_files q cmd c es = Ok vs -> run_files q cmd c es' = Ok vs' -> Permutation vs vs'.
+Proof. exact run_files_order. Qed.
+Print Assumptions C15_run_files_order_irrelevant.
 
 (* 3. Main theorem, full strength: for every quirk vector whose name-exemption flag is off (no hypothesis on the
       shebang flag: the source confines the fallback), every command, every configuration of the domain (every
@@ -130,6 +160,8 @@ Example C15_lower_special_code_points :
   /\ lower ".TsX" = ".tsx".
 Proof. vm_compute. repeat split; reflexivity. Qed.
 
+Definition dispatch_ideal_q : quirks := ideal.
+
 (* non-vacuity: a python file in upper case, a TS oracle entry that must not leak, two commands *)
 Definition ex_tab : atab :=
   [(("nesting.excessive-depth", "python"), [("nesting.excessive-depth", 1)]);
@@ -144,4 +176,14 @@ Example C15_nonvacuous :
   /\ spec_out "nesting" ex_tab ex_file = [("nesting.excessive-depth", 1)]
   /\ spec_out "file-placement" ex_tab (mk_file "notes.txt" "x" true true) = [("file-placement", 5)]
   /\ spec_out "nesting" ex_tab (mk_file "notes.txt" "#!/usr/bin/python" true true) = [].
+Proof. vm_compute. repeat split; reflexivity. Qed.
+
+(* non-vacuity of 2b: a plain extension-less file, then a python-shebang script, then notes.txt -> real.py, in one run *)
+Example C15_run_files_nonvacuous :
+  let es := [mk_entry (mk_file "notes" "# plain" true true) None ex_tab;
+             mk_entry (mk_file "script" "#!/usr/bin/env python3" true true) None ex_tab;
+             mk_entry (mk_file "notes.txt" "import os" true true) (Some "real.py") ex_tab] in
+  run_langs dispatch_ideal_q es = ["unknown"; "python"; "unknown"]
+  /\ run_files dispatch_ideal_q "nesting" [] es = Ok [("nesting.excessive-depth", 1)]
+  /\ run_files dispatch_ideal_q "nesting" [] (rev es) = Ok [("nesting.excessive-depth", 1)].
 Proof. vm_compute. repeat split; reflexivity. Qed.
